@@ -35,13 +35,40 @@ def roles(b):
     return r
 
 
-def rp(b, t):
+def rp(b, t, _depth=0):
     """full_path with the root parameter replaced by its role"""
     p = full_path(b, t)
     head, _, rest = p.partition(".")
     role = roles(b).get(head)
     if role:
         return role + ("." + rest if rest else "")
+    # a local alias (`let author = &admin.node.verifying_key`) or a local collection of references to the entries of a
+    # role parameter's list (`let pending: Vec<&UserNode> = room_node.admin_nodes.iter().collect()`)
+    if _depth < 4:
+        for l, n, lty, leaf in b.named_locals():
+            if n == head and leaf[0] == "var":
+                ds = b.var_defs(leaf)
+                if len(ds) != 1 or mir._is_loop_item(ds[0]):
+                    continue
+                d0 = strip_refs(ds[0])
+                while d0[0] in ("deref", "ref"):
+                    d0 = strip_refs(d0[1])
+                c = mir.has_call(d0, r"Iterator::collect$")
+                if c is not None and c[2]:
+                    inner = c[2][0]
+                    while True:
+                        u = strip_refs(inner)
+                        if u[0] == "call" and u[2] and (mir.ITER_ADAPTOR.search(u[1]) or mir.TRANSPARENT.search(u[1]) or u[1].endswith("::iter") or u[1].endswith("deref")):
+                            inner = u[2][0]
+                        else:
+                            break
+                    base = rp(b, inner, _depth + 1)
+                    if base.split(".")[0] in ("new", "old", "room"):
+                        return base + ("." + rest if rest else "")
+                elif d0[0] in ("field", "var", "param") and mir.has_call(d0, r"::find$") is None:
+                    base = rp(b, d0, _depth + 1)
+                    if base.split(".")[0] in ("new", "old", "room"):
+                        return base + ("." + rest if rest else "")
     # a variable bound to the element found in a list of a role parameter: `<role>.<list>.[find]`
     for l, n, lty, leaf in b.named_locals():
         if n == head and leaf[0] == "var":
@@ -290,3 +317,72 @@ def run(P, C, tier):
                 C.ob("R4", "loaded-is-written", p is not None and field_path(p[2][0]).endswith(".room"), pm.loc(bi), "add_room receives parse() of the written RoomNode")
     except mir.MissingAnchor as e:
         C.anchor_missing("R4", "process_message", e)
+    r5_new_room_history(P, C)
+
+
+def r5_new_room_history(P, C):
+    C.rule("R5", "a room not seen before is accepted only if its whole history is consistent: an administrator entry is entitled by the administrator history that "
+                 "PRECEDES it -- the entitlement test is made on a history built entry by entry, never on the full received definition (which already contains the "
+                 "entry under test, so that an entry a key writes for itself would authorise itself); the only self-authorising entry is the first one (empty history)")
+    try:
+        b = P.body("room_node::prepare_new_room")
+    except mir.MissingAnchor as e:
+        C.anchor_missing("R5", "prepare_new_room", e)
+        return
+    ds = [d for d in decisions(P, b) if list_of(d["user"]) == "admin_nodes"]
+    C.floor("R5", "administrator entitlement decisions of a new room", len(ds), 1)
+    for n, d in enumerate(ds):
+        a = b.call_args(d["block"])
+        recv = strip_refs(a[0])
+        while recv[0] in ("deref", "ref"):
+            recv = strip_refs(recv[1])
+        defs = b.var_defs(recv) if recv[0] == "var" else []
+        from_parse = any(mir.has_call(x, r"RoomNode::parse$") is not None for x in defs) or recv[0] != "var"
+        literal = bool(defs) and all(strip_refs(x)[0] == "aggr" and (strip_refs(x)[2] or "").endswith("room::Room") for x in defs)
+        C.ob("R5", "admin-history-precedes-entry#%d" % n, literal and not from_parse, d["loc"],
+             "is_admin is evaluated on %s" % ("a history started empty in this function" if literal and not from_parse else
+                                              "the parsed definition that already contains the entry under test: a self-authored administrator entry (a key nobody added, or a disabled administrator re-enabling itself) authorises itself"))
+        if not (literal and not from_parse):
+            continue
+        # the history grows only by entries that passed the test, or by the first entry of an empty history written by its own key
+        sws = rights.decision_switches(b, d["block"])
+        true_edges = {(sb, tt) for sb, tt, ft in sws if tt is not None}
+
+        def true_edges_of(pred):
+            """edges taken when a condition satisfying `pred` holds: the condition is the switch operand, or the only
+            non-constant definition of the named bool the switch tests (`let x = a && c` leaves `false` on the other edge)"""
+            out = set()
+            for sb in b.live_blocks():
+                t = b.blocks[sb]["t"]
+                if t["k"] != "switch":
+                    continue
+                term = b.switch_term(sb, expand_vars=False)
+                if term[0] == "discr":
+                    continue
+                for tg, vals in rights.switch_edges(b, sb):
+                    atom, truth = mir.cond_atoms(term, vals)
+                    if truth is not True:
+                        continue
+                    cands = [atom]
+                    if atom[0] == "var" and len(atom) > 2 and b.locals[atom[2]] == "bool":
+                        cands = [strip_refs(x) for x in b.var_defs(atom) if not (strip_refs(x)[0] == "const" and strip_refs(x)[1] is False)]
+                    if cands and all(x[0] == "call" and pred(x) for x in cands):
+                        out.add((sb, tg))
+            return out
+        empty_edges = true_edges_of(lambda x: x[1].endswith("::is_empty") and x[2] and field_path(x[2][0]).endswith(".admins") and mir.mentions(x[2][0], recv[1]))
+        adds = [bi for bi, t in b.calls_to(r"Room::add_admin_user$") if mir.mentions(b.call_args(bi)[0], recv[1])]
+        r = b.reachable(0, avoid_edges=true_edges | empty_edges)
+        gated = bool(adds) and not any(x in r for x in adds)
+        C.ob("R5", "history-extended-only-by-entitled-entries#%d" % n, gated, b.loc(adds[0]) if adds else b.loc(),
+             "add_admin_user on the history is reachable only through the accepting edge of is_admin or the empty-history bootstrap: %s (%d extension site%s)" % (gated, len(adds), "" if len(adds) == 1 else "s"))
+        # the bootstrap entry is written by the key it names
+        def own(x):
+            if not re.search(r"::eq$", x[1]) or len(x[2]) != 2:
+                return False
+            ps = [rp(b, y) for y in x[2]]
+            return any(y.endswith("admin_nodes.[].node.verifying_key") for y in ps) and any(y.endswith(".verifying_key") and not y.endswith(".node.verifying_key") for y in ps)
+        own_edges = true_edges_of(own)
+        r2 = b.reachable(0, avoid_edges=true_edges | own_edges)
+        boot = bool(own_edges) and bool(adds) and not any(x in r2 for x in adds)
+        C.ob("R5", "bootstrap-is-self-authored#%d" % n, boot, b.loc(),
+             "without the accepting edge of is_admin the history is extended only when the entry's author is the key the entry names: %s" % boot)
